@@ -114,6 +114,48 @@ class Getset(Instance):
         return any(("panic" in o or "crash" in o or o.get("ok") is False) for o in outs.values())
 
 
+class GetsetFault(Getset):
+    """The -o destination cannot be written completely (first failing write at every offset of the expected output): getset must
+    return Err (non-zero exit), never report success with a partial file."""
+    def __init__(self, name):
+        Getset.__init__(self, name, 2, "names")
+        self.required_witnesses = ("fault_reported", "no_fault_ok")
+        self.bounds = {"archive": "3 samples, one contig each, 1..2 symbolic bases", "request": "the two samples a1 b to an -o file", "fault": "the write covering byte phi fails, for every phi in 0..|expected output| (phi = |output| means no fault)"}
+
+    def path(self, e):
+        from mirsym import models_io
+        e.fs = models_io.FS(); e.stdout = []
+        seqs = []
+        for i in range(len(NAMES)):
+            n = 1 + e.choose(2, f"len{i}")
+            seqs.append(e.sym_bytes(f"seq{i}", n, among=[0, 1, 4, 30]))
+        e.h = {"seqs": seqs}
+        S = lambda b: VecObj([Int(8, 0, x) for x in b], "String")
+        exp = self.expected_for(e, 0) + self.expected_for(e, 1)
+        phi = e.choose(len(exp) + 1, "phi")
+        out_path = b"/out/result.fa"
+        e.fs.fault_at = phi if phi < len(exp) else None
+        r = e.call_fn(CLI, "getset_command", [S(b"/in/archive.agc"), VecObj([S(NAMES[0]), S(NAMES[1])]), none(), some(S(out_path)), Int(32, 0, 0)])
+        e.inputs["request"] = [NAMES[0].decode(), NAMES[1].decode()]
+        if phi == len(exp):
+            e.prove(r.variant == 0, "cli:spurious_error", "getset failed without any injected fault")
+            e.witness("no_fault_ok")
+        else:
+            e.prove(r.variant == 1, "cli:error_swallowed", f"getset returned Ok (exit status 0) although the write at offset {phi} of the -o file failed")
+            e.witness("fault_reported")
+        return None
+
+    def native(self, inp):
+        seqs = [inp.get(f"seq{i}", [0]) for i in range(len(NAMES))]
+        return "cli_getset_fault", {"seqs": seqs, "request": inp.get("request"), "phi": inp.get("phi", 0)}
+
+    def confirm(self, viol, outs):
+        return any(("panic" in o or o.get("ok") is False) for o in outs.values())
+
+    def concrete_cases(self, rnd):
+        return []
+
+
 class CreateFlags(Instance):
     """create_archive with an unsupported flag combination: exit status 0 implies that the archive exists."""
     crates = ("ragc-cli", "ragc-core", "ragc-common")
@@ -160,8 +202,8 @@ def _reg(i):
     return i
 
 
-QUICK = [_reg(Getset("names2", 2, "names")).name, _reg(Getset("prefix", 0, "prefix")).name, _reg(CreateFlags("create_flags")).name]
-THOROUGH = [_reg(Getset("T_names3", 3, "names")).name, "prefix", "create_flags"]
+QUICK = [_reg(GetsetFault("getset_fault")).name, _reg(Getset("names2", 2, "names")).name, _reg(Getset("prefix", 0, "prefix")).name, _reg(CreateFlags("create_flags")).name]
+THOROUGH = ["getset_fault", _reg(Getset("T_names3", 3, "names")).name, "prefix", "create_flags"]
 
 
 # archive level, through the real CLI create path (harness/cli_create.py)
